@@ -9,7 +9,9 @@ ENTRY = dict(
                   "c14_measure_bits", "c14_refuse_length", "c14_refuse_non_placeholder", "c14_refuse_differing_bases",
                   "c14_refuse_count", "c14_refuse_repeated_index", "c14_refuse_2q_in_pair", "c14_refuse_maps_length",
                   "c14_refuse_map_none", "c14_refuse_map_out_of_range", "c14_decided", "c14_never_crashes", "c14_omitted",
-                  "c14_omitted_never_crashes", "c14_setter", "c14_setter_invariant", "c14_facts"],
+                  "c14_omitted_never_crashes", "c14_setter", "c14_setter_invariant", "c14_basis_eq",
+                  "c14_accepted_pair_same_basis", "c14_refuse_unequal_bases", "c14_refines", "c14_validate_quotient",
+                  "c14_all_2q_split", "c14_2q_split_order_irrelevant", "c14_facts"],
         allowed_axioms=[],
         facts=["value_error_sites", "c14_validate_messages", "c14_offset_updates", "c14_sorted_2q", "c14_min_register",
                "c14_decompose_value_errors", "c14_unset_check_first"],
@@ -44,7 +46,11 @@ ENTRY = dict(
             "KNOWN_FINDINGS.json lists C14/F17 as known; otherwise they are compared with the property-demanding model and alarm",
             "the model has no Instruction._definition cache: `definition` always reflects the current basis_id (what the property demands); "
             "the stream 'definition_read_before' exercises gates whose definition was read before the call",
-            "QPDBasis objects are interned by QPDBasis.__eq__ (equal handle <=> ==); ordinary gates by (name, arity, exact params, class)",
+            "QPDBasis equality is MODELLED (Model/DecomposeEq.v: rbasis_eqb = same qubit count, maps and exact coefficients; handles = "
+            "object identities) and c14_refines proves that this model equals the handle-based model on the quotient circuit, so the "
+            "theorems no longer rest on borrowing the implementation's == for the interning; the streams valid/omitted/malformed are "
+            "compared with BOTH models. Remaining interning assumptions: ordinary gates and basis operations are compared by (name, "
+            "arity, exact params, class) in place of Instruction.__eq__; coefficients by their exact binary64 value (-0.0 / NaN not produced)",
             "instruction arity is a Qiskit invariant (2q placeholder has two qubits, 1q placeholder one); negative instruction indices "
             "are outside the model and the quantifier and are not generated; map ids are Python ints or None (option Z)",
             "QuantumCircuit.copy()/add_register semantics (operations copied, new register's bits are the last clbits, register is "
